@@ -99,8 +99,8 @@ func LoadAt(repo, mod string, minPkgs int) (*Program, error) {
 		if !p.InModule(fn) || fn.Blocks == nil {
 			continue
 		}
-		if fn.Synthetic != "" && !strings.HasPrefix(fn.Synthetic, "instance of") {
-			continue
+		if fn.Synthetic != "" || fn.Origin() != nil {
+			continue // wrappers, thunks and generic instances: the origin is analysed instead
 		}
 		p.Funcs = append(p.Funcs, fn)
 		p.byName[p.FuncName(fn)] = fn
